@@ -173,6 +173,12 @@ def check(ctx):
               'a = { "x" ~ "y" }\n' + SEP + 'WHITESPACE = _{ " "* }\n',
               'a = { (b | "y") ~ "z" }\n' + SEP + 'b = { "q"? | "r" }\n',
               'a = { b+ }\n' + SEP + 'b = { "x" }\n' + SEP + 'c = { a ~ b }\n']
+    # grammars handed over as FILES (`#[grammar = "PATH"]`; U+001F + "src:" / "root:" in a gen_dump request): PATH relative to
+    # CARGO_MANIFEST_DIR/src (the old default location, found by a fallback) and relative to CARGO_MANIFEST_DIR; also mixed with inline parts
+    FILE = "\x1f"
+    texts += [FILE + "src:" + grammar.HAND[0], FILE + "root:" + grammar.HAND[0], FILE + "src:" + ILL[0], FILE + "root:" + ILL[1],
+              FILE + 'src:a = { b+ }\n' + SEP + 'b = { "x" }\n', 'a = { b ~ "x" }\n' + SEP + FILE + 'root:b = { a? ~ "y" }\n',
+              FILE + 'src:main = { SOI ~ item ~ ("," ~ item)* ~ EOI }\nitem = @{ ASCII_ALPHA+ }\nWHITESPACE = _{ " " }\n']
     for i in range(nmut // 5):
         t = rng.choice(valid_src)
         lines = t.split("\n")
@@ -215,6 +221,18 @@ def check(ctx):
         for p in run.problems:
             ctx.violation("a parse batch did not return or died (watchdog / exit status): " + p, {"problem": p}, found_input=False)
         termination_tie(ctx, dgs, run)
+        # the same for the un-optimized generator path (counted repetitions stay single RepMin / RepMinMax nodes there): the corpus
+        # of C20 compiled with pest_optimizer = false; every batch returns
+        from . import C20 as c20
+        from .. import dcorp
+        from ..core import MODEL_FLAGS
+        rdgs = c20.raw_corpus(ctx.tier)
+        rrun = dcorp.run_corpus("raw_%s" % ctx.tier, rdgs, dcorp.inputs_for, MODEL_FLAGS)
+        ctx.coverage["compiled_grammars_optimizer_off"] = len(rdgs)
+        ctx.evaluations += len(rdgs)
+        for p in rrun.problems:
+            ctx.violation("a parse batch of the corpus compiled with pest_optimizer = false did not return or died (watchdog / exit status): " + p,
+                          {"problem": p, "options": {"pest_optimizer": False}}, found_input=False)
     except RuntimeError as e:
         msg = str(e)
         if "cargo build" not in msg:
